@@ -203,13 +203,20 @@ def run(out, tier):
             return marks
         fa, fm = fault_marks(ha), fault_marks(hm)
         faulted = [x or y for x, y in zip(fa, fm)]
+        # ... and mode all HEALS a fault in the first build that selects the target (it restores every selected output), mode minimal
+        # only in the build in which an executing dependant needs it -- possibly several builds later.  After a fault the commands
+        # are therefore compared cumulatively: what minimal has executed since the fault is a sub-multiset of what all has executed
+        # since the fault (per build this is the old rule whenever both heal in the same build)
+        cum_a, cum_m = [], []
         for bi, (a, b) in enumerate(zip(ha.builds, hm.builds)):
             evals += 1
+            if bi < len(faulted) and faulted[bi]:
+                cum_a += a["starts"]; cum_m += b["starts"]
             predicted = bi < len(mm) and sorted(b["starts"]) == mm[bi]["exec"] and (b["rc"] == 0) == mm[bi]["ok"]
             if (a["rc"] == 0) != (b["rc"] == 0):
                 hc.decide(out, "C15", findings, hm, "build %d: mode all exits %s, mode minimal exits %s (%s)" % (bi, a["rc"], b["rc"], b["stderr"][-200:]),
                           predicted, GUARDS)
-            elif bi < len(faulted) and faulted[bi] and sub_multiset(b["starts"], a["starts"]):
+            elif bi < len(faulted) and faulted[bi] and (sub_multiset(b["starts"], a["starts"]) or sub_multiset(cum_m, cum_a)):
                 pass
             elif sorted(a["starts"]) != sorted(b["starts"]):
                 hc.decide(out, "C15", findings, hm, "build %d executes %s under all but %s under minimal" % (bi, sorted(a["starts"]), sorted(b["starts"])),
